@@ -10,12 +10,14 @@ out = subprocess.run([os.path.join(root, "tools", "try_seed.sh"), seed, prop, ti
 print(out)
 dst = os.path.join(root, "seeded", name)
 os.makedirs(dst, exist_ok=True)
-for f in os.listdir(seed):
-    if f.endswith((".py", ".diff", ".json", ".md", ".txt")):
-        shutil.copy(os.path.join(seed, f), dst)
+if os.path.realpath(seed) != os.path.realpath(dst):
+    for f in os.listdir(seed):
+        if f.endswith((".py", ".diff", ".json", ".md", ".txt")):
+            shutil.copy(os.path.join(seed, f), dst)
 meta = json.load(open(os.path.join(dst, "meta.json"))) if os.path.exists(os.path.join(dst, "meta.json")) else {}
 meta["property"] = prop
 lines = out.strip().split("\n")
+old_note = (meta.get("lead_verification") or {}).get("note")
 meta["lead_verification"] = {
     "ran": "tools/try_seed.sh (scratch worktree of /repo HEAD + git apply patch.diff; demo.py on clean and changed tree; ./check %s --tier %s with VERIF_REPO=<worktree>)" % (prop, tier),
     "demo_clean": next((l for l in lines if l.startswith("demo on clean")), None),
@@ -24,4 +26,6 @@ meta["lead_verification"] = {
     "check_output": [l for l in lines if not l.startswith("demo on") and not l.startswith("tests with change")],
     "detected": any(l.startswith("VIOLATION") for l in lines),
 }
+if old_note:
+    meta["lead_verification"]["note"] = old_note
 json.dump(meta, open(os.path.join(dst, "meta.json"), "w"), indent=1)
